@@ -366,13 +366,22 @@ func oneLogin(r *core.Run) {
 		statusBytes = []byte{byte(status)}
 		var auth []byte
 		r.Call("cmpp.GenConnectRespAuthISMG", func() { auth = cmpp.GenConnectRespAuthISMG(statusBytes, string(wireAuth), serverSecret) })
-		resp = &cmpp20.PduConnectResp{Header: cmpp.NewHeader(0, cmpp.CommandConnectResp, seq), Status: uint8(status), AuthenticatorISMG: string(auth), Version: cmpp.Version20}
+		ver := uint8(cmpp.Version20)
+		if c.Prob(1, 3) {
+			ver = []uint8{0x30, 0x21, 0x2f, 0x10, 0x00, 0xff}[c.Intn(6)]
+		}
+		resp = &cmpp20.PduConnectResp{Header: cmpp.NewHeader(0, cmpp.CommandConnectResp, seq), Status: uint8(status), AuthenticatorISMG: string(auth), Version: ver}
 	case 1:
 		respSite = "cmpp30.ConnectResp"
 		statusBytes = binary.BigEndian.AppendUint32(nil, status)
 		var auth []byte
 		r.Call("cmpp.GenConnectRespAuthISMG", func() { auth = cmpp.GenConnectRespAuthISMG(statusBytes, string(wireAuth), serverSecret) })
-		resp = &cmpp30.ConnectResp{Header: cmpp.NewHeader(0, cmpp.CommandConnectResp, seq), Status: status, AuthenticatorISMG: string(auth), Version: cmpp.Version30}
+		// the version octet says what the ISMG supports at most: any value, it has nothing to do with the authenticator
+		ver := uint8(cmpp.Version30)
+		if c.Prob(1, 3) {
+			ver = []uint8{0x20, 0x21, 0x2f, 0x31, 0x00, 0xff, 0x12, 0x03}[c.Intn(8)]
+		}
+		resp = &cmpp30.ConnectResp{Header: cmpp.NewHeader(0, cmpp.CommandConnectResp, seq), Status: status, AuthenticatorISMG: string(auth), Version: ver}
 	default:
 		respSite = "smgp30.LoginResp"
 		statusBytes = binary.BigEndian.AppendUint32(nil, status)
